@@ -165,6 +165,20 @@ theorem C46_wakeup_needs_push_send :
     let s : State Nat := { (init : State Nat) with queue := [1], hist := [1] }
     s.queue ≠ [] ∧ ¬ (s.token = true ∨ 0 < s.holding) := by decide
 
+/-- A Pop body that is NOT one step — cut the batch under the mutex, unlock, and only then, having seen
+    the queue empty, take a pending token out of the channel — loses a wake-up when a whole Push fits
+    in between: push [1]; receive; cut (queue empty); push [2] (token set); discard the token ⇒ alert 2
+    is queued, no token, nobody inside Pop.  (The independently seeded change C46-a; the replay item
+    `K` parks a Pop at that point on the real queue.) -/
+theorem C46_split_pop_loses_wakeup :
+    let c : Cfg := ⟨10, 10⟩
+    let s1 := push c (init : State Nat) [1]
+    let s2 := { s1 with token := false, holding := 1 }                       -- receive
+    let s3 := { s2 with queue := [], out := [1], holding := 0 }              -- cut the batch, unlock
+    let s4 := push c s3 [2]                                                   -- a whole Push
+    let s5 := { s4 with token := false }                                      -- discard the token
+    s5.queue ≠ [] ∧ ¬ (s5.token = true ∨ 0 < s5.holding) := by decide
+
 /-- Regenerated obligations: the synchronisation skeleton of the two methods, in source order —
     Pop receives from `morec` (or `termc`) BEFORE it locks and re-arms under the lock only when
     alerts are left; Push returns early on an empty list before locking and again after
